@@ -29,7 +29,8 @@ RULE = (
     "then the crash), followed by one un-faulted rerun of the same command.  Oracle after the rerun: exit 0; all "
     "pages error-free and index == recompiled files field by field; files equal those of the uninterrupted run "
     "modulo the identity of freshly allocated ZIDs; no ZID on two notes; no original line lost.  evaluations = "
-    "crash runs; non-trivial = distinct (scenario, boundary) whose crash left a state different from both the "
+    "crash runs (about one boundary in nine is repeated in a real process killed with os._exit(137) and rerun in a "
+    "real process); non-trivial = distinct (scenario, boundary) whose crash left a state different from both the "
     "initial and the final one."
 )
 ASSUMPTIONS = [
@@ -129,22 +130,31 @@ def canon_files(tree: dict, known_zids: set) -> dict:
     return {rel: _ZID.sub(sub, t) for rel, t in sorted(tree.items())}
 
 
-def crash_once(base: Path, box: Path, args, day, i, torn, reference, known_zids, orig_lines, rec, tag):
-    """One crash point.  Returns (label, state_was_intermediate)."""
+def crash_once(base: Path, box: Path, args, day, i, torn, reference, known_zids, orig_lines, rec, tag,
+               real=False, label_hint=None):
+    """One crash point.  Returns (label, state_was_intermediate).  real=True: the command runs in a
+    real process that is killed with os._exit(137) at the boundary, and the rerun is a real process too."""
     zdir = box / f"run-{tag}"
     shutil.copytree(base, zdir)
     try:
-        ip = Interposer(zdir, crash_at=i, torn=torn)
-        code = run_cmd(zdir, args, day, ip)
-        label = ip.crashed
+        if real:
+            r = env.zorg_subprocess(zdir, *args, day=day_str(day), crash_at=i, torn=torn)
+            if r.code != 137:
+                return None, False
+            label = label_hint
+            code = "crashed"
+        else:
+            ip = Interposer(zdir, crash_at=i, torn=torn)
+            code = run_cmd(zdir, args, day, ip)
+            label = ip.crashed
         if code != "crashed":
             if label is None:
                 return None, False  # fewer effects this time
             raise InvalidCase("crash did not propagate")
         mid = snapshot(zdir)
-        what = f"`{' '.join(args)}` killed before effect #{i} [{label}]" + (" (torn write)" if torn else "")
+        what = ("[real kill -9] " if real else "") + f"`{' '.join(args)}` killed before effect #{i} [{label}]" + (" (torn write)" if torn else "")
         with rec.sut("rerun"):
-            code2 = run_cmd(zdir, args, day)
+            code2 = env.zorg_subprocess(zdir, *args, day=day_str(day)).code if real else run_cmd(zdir, args, day)
         key = re.sub(r"#\d+", "", label.split(":")[0]) + (":torn" if torn else "")
         if code2 != 0:
             raise Violation(f"rerun-fails:{_kind(label, torn)}", f"{what}: the rerun exited {code2}")
@@ -225,6 +235,15 @@ def check_scenario(case, rec: Rec) -> None:
                 if got_label is not None and mid != pre and mid != final:
                     rec.sub_nontrivial.append(f"{i}:{label}:{torn}")
                 rec.label("boundary:" + kcls)
+                # a sample of the boundaries again with a REAL process killed by os._exit(137)
+                if not torn and (i * 7 + len(effects)) % case.get("real_every", 9) == 0:
+                    try:
+                        crash_once(base, box, args, day, i, False, reference, known, orig_lines, rec, f"{i}real",
+                                   real=True, label_hint=label)
+                    except Violation as v:
+                        raise Violation("real-kill:" + v.clause, v.detail, case=dict(one, real=True), part="crash")
+                    rec.sub_evals += 1
+                    rec.label("real-kill")
     rec.label("flavour:" + case["flavour"])
     rec.nontrivial = len(rec.sub_nontrivial) >= 1
 
@@ -266,13 +285,15 @@ def check_crash(case, rec: Rec) -> None:
                 new = ref_tree.get(rel, "").split("\n")
                 old = t.decode().split("\n")
                 orig_lines += [a for a, b in zip(old, new) if a == b and a.strip()] if len(old) == len(new) else []
-        crash_once(base, box, args, day, case["crash"], case.get("torn", False), reference, known, orig_lines, rec, "r")
+        crash_once(base, box, args, day, case["crash"], case.get("torn", False), reference, known, orig_lines, rec, "r",
+                   real=case.get("real", False), label_hint="?")
     rec.nontrivial = True
 
 
 def parts(tier):
     quick = tier == "quick"
-    strat = _scenario if quick else (lambda: _scenario().map(lambda c: dict(c, torn=True)))
+    strat = (lambda: _scenario().map(lambda c: dict(c, real_every=23))) if quick else \
+        (lambda: _scenario().map(lambda c: dict(c, torn=True, real_every=7)))
     return [HypPart(name="scenarios", check=check_scenario, strategy=strat,
-                    examples=3 if quick else 12, seconds=60 if quick else 900),
+                    examples=3 if quick else 12, seconds=45 if quick else 900),
             EnumPart(name="crash", check=check_crash, items=lambda: [], exhaustive=False)]
